@@ -10,6 +10,7 @@ import Proofs.Lemmas.StreamEnc
 import Proofs.Lemmas.SalsaBytes
 import Proofs.Lemmas.Rc4
 import Proofs.Lemmas.SalsaKey
+import Proofs.Lemmas.SalsaEnd
 namespace Proofs.C06
 open Model Model.Gen.Streams Proofs.Lemmas.StreamPoly Proofs.Lemmas.SalsaRounds Proofs.Lemmas.StreamEnc Proofs.Lemmas.SalsaBytes
 
@@ -227,6 +228,92 @@ theorem chacha_hash_refines (m : List (BitVec 8)) (hm : m.length = 64) :
       .ok ((Spec.Salsa20.unwords (Spec.Chacha.coreWords 10 (Spec.Salsa20.words m))).map BitVec.toNat) :=
   Proofs.Lemmas.SalsaKey.hash_words chachaSpec m hm
 
+/-! ## C''. key expansion and the end-to-end statements in bytes -/
+
+/-- **end to end** (salsa): for every 16- or 32-byte key, 8-byte nonce, positive even `rounds`, start block `b0` and
+    message `M` with all block numbers below 2^64 — the object built from `Bits(key,bitorder=1)`, called with
+    `Bits(nonce,bitorder=1)` — returns exactly the ciphertext the specification defines (Spec.Salsa20.encFrom: M xor the
+    keystream blocks hash_r(expand(key, nonce ‖ le64(i))), i = b0, b0+1, …), and it has the length of `M` -/
+theorem salsa_enc_end_to_end (key v M : List (BitVec 8)) (hk : key.length = 16 ∨ key.length = 32) (hv : v.length = 8)
+    (rounds : Int) (hr : rounds > 0 ∧ rounds % 2 = 0) (b0 : Nat) (hb : b0 + (M.length + 63) / 64 ≤ 2 ^ 64) :
+    ∃ C s', Spec.Salsa20.encFrom (rounds / 2).toNat key v b0 M = some C ∧ C.length = M.length ∧
+      (do let K ← Bits.ofBytes (key.map BitVec.toNat) none 1
+          let st ← Salsa.init (some K) rounds
+          let nv ← Bits.ofBytes (v.map BitVec.toNat) none 1
+          Salsa.encFrom Salsa.salsa st nv b0 (M.map BitVec.toNat)) = .ok (C.map BitVec.toNat, s') := by
+  obtain ⟨ks, hinit⟩ := Proofs.Lemmas.SalsaEnd.salsa_init_bytes key hk rounds hr
+  have hP := Proofs.Lemmas.SalsaEnd.salsaP_length key
+  obtain ⟨P', _, henc⟩ := encFrom_words salsaSpec ks _ hP (rounds / 2).toNat (Proofs.Lemmas.SalsaKey.leVal v) b0 M hb
+  refine ⟨_, ⟨some ks, ofBV P', (rounds / 2).toNat⟩, Proofs.Lemmas.SalsaEnd.salsa_spec_enc _ key v hk hv b0 M hb, encW_length salsaSpec _ _ _ _ hP _ _ _, ?_⟩
+  have hv8 : 8 * v.length = 64 := by omega
+  have hnv := Proofs.Lemmas.SalsaKey.ofBytes_le v
+  rw [hv8] at hnv
+  simp only [Proofs.Lemmas.SalsaKey.nat, bind, Except.bind] at hinit hnv ⊢
+  split at hinit
+  · simp at hinit
+  · rename_i K hK
+    rw [hinit]
+    simp only []
+    rw [hnv]
+    exact henc
+
+/-- **end to end** (chacha): for every 16- or 32-byte key, 8-byte nonce, positive even `rounds`, start block `b0` and
+    message `M` with all block numbers below 2^64 — the object built from `Bits(key,bitorder=1)`, called with
+    `Bits(nonce,bitorder=1)` — returns exactly the ciphertext the specification defines (Spec.Chacha.encFrom: M xor the
+    keystream blocks hash_r(expand(key, nonce ‖ le64(i))), i = b0, b0+1, …), and it has the length of `M` -/
+theorem chacha_enc_end_to_end (key v M : List (BitVec 8)) (hk : key.length = 16 ∨ key.length = 32) (hv : v.length = 8)
+    (rounds : Int) (hr : rounds > 0 ∧ rounds % 2 = 0) (b0 : Nat) (hb : b0 + (M.length + 63) / 64 ≤ 2 ^ 64) :
+    ∃ C s', Spec.Chacha.encFrom (rounds / 2).toNat key v b0 M = some C ∧ C.length = M.length ∧
+      (do let K ← Bits.ofBytes (key.map BitVec.toNat) none 1
+          let st ← Chacha.init (some K) rounds
+          let nv ← Bits.ofBytes (v.map BitVec.toNat) none 1
+          Salsa.encFrom Chacha.chacha st nv b0 (M.map BitVec.toNat)) = .ok (C.map BitVec.toNat, s') := by
+  obtain ⟨ks, hinit⟩ := Proofs.Lemmas.SalsaEnd.chacha_init_bytes key hk rounds hr
+  have hP := Proofs.Lemmas.SalsaEnd.chachaP_length key
+  obtain ⟨P', _, henc⟩ := encFrom_words chachaSpec ks _ hP (rounds / 2).toNat (Proofs.Lemmas.SalsaKey.leVal v) b0 M hb
+  refine ⟨_, ⟨some ks, ofBV P', (rounds / 2).toNat⟩, Proofs.Lemmas.SalsaEnd.chacha_spec_enc _ key v hk hv b0 M hb, encW_length chachaSpec _ _ _ _ hP _ _ _, ?_⟩
+  have hv8 : 8 * v.length = 64 := by omega
+  have hnv := Proofs.Lemmas.SalsaKey.ofBytes_le v
+  rw [hv8] at hnv
+  simp only [Proofs.Lemmas.SalsaKey.nat, bind, Except.bind] at hinit hnv ⊢
+  split at hinit
+  · simp at hinit
+  · rename_i K hK
+    rw [hinit]
+    simp only []
+    rw [hnv]
+    exact henc
+
+/-! ## C'''. what is refused -/
+
+/-- key sizes other than 128/256 bits, and round counts that are not positive and even, are refused by both constructors -/
+theorem init_rejects (K : Bits) (rounds : Int) (h : (K.size ≠ 128 ∧ K.size ≠ 256) ∨ ¬ (rounds > 0 ∧ rounds % 2 = 0)) :
+    (∃ e, Salsa.init (some K) rounds = .error e) ∧ (∃ e, Chacha.init (some K) rounds = .error e) := by
+  have hs : ∃ e, Salsa.init (some K) rounds = .error e := by
+    unfold Salsa.init
+    dsimp only
+    by_cases hk : K.size ≠ 128 ∧ K.size ≠ 256
+    · rw [if_pos hk]; exact ⟨_, rfl⟩
+    · have hr : ¬ (rounds > 0 ∧ rounds % 2 = 0) := by rcases h with h | h; exact absurd h hk; exact h
+      rw [if_neg hk]
+      simp only [bind, Except.bind]
+      split
+      · exact ⟨_, rfl⟩
+      · rw [if_pos hr]; exact ⟨_, rfl⟩
+  refine ⟨hs, ?_⟩
+  obtain ⟨e, he⟩ := hs
+  exact ⟨e, by unfold Chacha.init; rw [he]; rfl⟩
+
+/-- `keystream`/`enc` without a key, or with a nonce that is not 64 bits wide, is refused -/
+theorem enc_rejects (V : Salsa.Variant) (s : Salsa.State) (v : Bits) (b0 : Nat) (m : List Nat)
+    (h : s.K = none ∨ v.size ≠ 64) : ∃ e, Salsa.encFrom V s v b0 m = .error e := by
+  unfold Salsa.encFrom Salsa.setNonce
+  rcases h with h | h
+  · exact ⟨_, by simp only [h, Option.isNone_none, ↓reduceIte]; rfl⟩
+  · by_cases hk : s.K.isNone
+    · exact ⟨_, by simp only [hk, ↓reduceIte]; rfl⟩
+    · exact ⟨_, by simp only [hk, Bool.false_eq_true, ↓reduceIte, h, ne_eq, not_false_eq_true]; rfl⟩
+
 /-! ## D. RC4 -/
 
 open Proofs.Lemmas.Rc4 in
@@ -323,5 +410,25 @@ theorem rc4_dec_enc (key : List (BitVec 8)) (h0 : 0 < key.length) (h1 : key.leng
   have hx := xorB_xorB M (Spec.Rc4.prga M.length (Spec.Rc4.start key)).1 (by rw [prga_ks_length]; exact Nat.le_refl _)
   unfold xorB at hx
   simp only [pure, Except.pure, Spec.Rc4.enc, List.length_zipWith, prga_ks_length, Nat.min_self, hx]
+
+/-! ## non-vacuity: the hypothesis sets are inhabited by non-trivial instances -/
+
+/-- a 32-byte key, non-zero nonce, 20 rounds, a 3-block message of ragged length that starts one block before the carry at 2^32 -/
+example : ∃ (key v M : List (BitVec 8)) (rounds : Int) (b0 : Nat),
+    (key.length = 16 ∨ key.length = 32) ∧ v.length = 8 ∧ (rounds > 0 ∧ rounds % 2 = 0) ∧
+    b0 + (M.length + 63) / 64 ≤ 2 ^ 64 ∧ M.length % 64 ≠ 0 ∧ b0 < 2 ^ 32 ∧ 2 ^ 32 < b0 + (M.length + 63) / 64 ∧ v ≠ List.replicate 8 0 :=
+  ⟨List.replicate 32 1, List.replicate 8 2, List.replicate 130 3, 20, 2 ^ 32 - 1, by
+    refine ⟨Or.inr (by simp), by simp, by decide, by simp, by simp, by decide, by simp, ?_⟩
+    intro h; have := congrArg (fun l => l.getD 0 0) h; simp at this⟩
+
+/-- a state with 16 words exists for every key (e.g. the one `__init__` leaves), here a concrete one -/
+example : ∃ P : List (BitVec 32), P.length = 16 := ⟨(List.range 16).map (BitVec.ofNat 32), by decide⟩
+
+/-- RC4 keys of 1 and of 256 bytes -/
+example : ∃ k1 k2 : List (BitVec 8), 0 < k1.length ∧ k1.length ≤ 256 ∧ k2.length = 256 :=
+  ⟨[1], List.replicate 256 7, by refine ⟨by decide, by decide, List.length_replicate ..⟩⟩
+
+/-- an RC4 specification state with a 256-entry S exists: the start state of any key -/
+example (key : List (BitVec 8)) : (Spec.Rc4.start key).S.length = 256 := Proofs.Lemmas.Rc4.start_length key
 
 end Proofs.C06
